@@ -30,7 +30,7 @@ non-trivial = the call or program reaches the builtin / operator with arguments 
 
 const POOL: &[&str] = &[
     "null", "true", "false", "0", "1", "-1", "2", "64", "65", "255", "256", "4096", "9223372036854775807", "(-9223372036854775807 - 1)", "1.5", "-0.0", "(1e308 * 10.0)", "((1e308 * 10.0) - (1e308 * 10.0))", "1e-320",
-    "\"\"", "\"a\"", "\"abc\"", "\"日本\"", "\"{}\"", "\"{:>5}\"", "\"{0}{1}\"", "\"r\"", "\"w\"", "\"10\"", "\"-5\"", "\"1e3\"", "\"0x10\"", "'a'", "'√'", "b'a'", "byte(0)", "byte(255)",
+    "\"\"", "\"a\"", "\"abc\"", "\"日本\"", "\"{}\"", "\"{:>5}\"", "\"{0}{1}\"", "\"{18446744073709551615}\"", "\"{99999999999999999999:x}\"", "\"{1:*<3}{\"", "\"r\"", "\"w\"", "\"10\"", "\"-5\"", "\"1e3\"", "\"0x10\"", "'a'", "'√'", "b'a'", "byte(0)", "byte(255)",
     "[]", "[1, 2, 3]", "[3, 1, 2]", "[\"b\", \"a\"]", "['a', 'b']", "[b'a', b'b']", "[[1], [2]]", "[1, \"a\"]", "[1.5, 0.5]", "map {}", "map {\"a\": 1}", "map {1: [1]}",
     "fn(x) { x }", "len", "FR", "FW", "PR", "PW", "PK", "ER", "stdin", "stdout", "stderr",
 ];
@@ -233,6 +233,21 @@ fn stress(ctx: &mut Ctx) {
         "match 5 { 1 => 1, _ => [1][9] }".into(),
         "fn f() { return f; } f()()()()()".into(),
     ];
+    // sorting arrays that mix kinds without an order between them, in several arrangements and lengths
+    for n in [3usize, 20, 21, 40, 64, 100, 300] {
+        for mix in [
+            "push(a, i); push(a, str(i));",
+            "push(a, str(i)); push(a, n - i);",
+            "if i % 3 == 0 { push(a, null); } else { push(a, (i * 7919) % 101); }",
+            "push(a, (i * 31) % 17); push(a, [i]); push(a, 1.5 * i);",
+            "push(a, i * 0.5); push(a, (1e308 * 10.0) - (1e308 * 10.0)); push(a, n - i);",
+            "push(a, char(97 + i % 26)); push(a, \"s\"); push(a, byte(i % 256));",
+            "push(a, i % 2 == 0); push(a, i % 5);",
+            "push(a, (i * 7919) % 1009);",
+        ] {
+            t.push(format!("let n = {}; let a = []; let i = 0; while i < n {{ {} i = i + 1; }} len(sort(a))", n, mix));
+        }
+    }
     for n in [1usize, 200, 250, 254, 255, 256, 257, 300] {
         let locals: String = (0..n).map(|i| format!("let v{} = {}; ", i, i)).collect();
         t.push(format!("fn f() {{ {} v0 + v{} }} f()", locals, n - 1));
@@ -321,6 +336,20 @@ fn filter_programs() -> Vec<(String, Option<i32>)> {
         v.push((format!("@ {}\n", p), None));
         v.push((format!("@ {} {{ eprintln(\"x\"); }}\n", p), None));
     }
+    // two constructs in one action (a nested filter next to a jump, a function next to a return ...)
+    let parts = [
+        "@ true { eprintln(\"n\"); }", "return 1;", "return;", "break;", "continue;", "let f = fn() { return 3; }; f();", "fn h() { @ NP > 1 { eprintln(\"h\"); } } h();", "loop { break; }", "if NP > 1 { return; }",
+        "let z = [1][0];", "{ @ end { return; } }", "while false { @ true { continue; } }",
+    ];
+    for a in parts {
+        for b in parts {
+            v.push((format!("@ true {{ {} {} }}\n", a, b), None));
+        }
+    }
+    // the main program fails, filters with locals follow
+    for pre in ["fn f() { f() } f();", "fn f(n) { 1 + f(n + 1) } f(0);", "[1][9];", "let a = [1, 2, 3]; a[5] = 1;", "undefined_name;"] {
+        v.push((format!("{}\n@ true {{ let a = 1; let b = [a, a]; eprintln(\"{{}}\", b); }}\n@ NP > 1\n@ end {{ let c = 2; eprintln(\"{{}}\", c); }}\n", pre), None));
+    }
     for pre in ["exit(4);", "1 / 0;", "fn f() { @ true } f();", "{ @ true { eprintln(\"b\"); } }", "if true { @ NP > 0 }", "while false { @ true }", "let f = fn() { @ true };", "@ true\n@ true\n@ end { }\n@ end { }"] {
         let code = if pre == "exit(4);" { Some(4) } else { None };
         v.push((format!("{}\n@ true {{ eprintln(\"{{}}\", NP); }}\n", pre), code));
@@ -384,6 +413,40 @@ fn filters(ctx: &mut Ctx) {
             }
         }
     }
+    // containers that contain themselves, used in anything but printing (hashing, equality, ordering ...)
+    let pre = "let a = [1]; push(a, a); let b = [1]; push(b, b); let m = map {}; let m1 = map {}; m1[1] = m1; let m2 = map {}; m2[1] = m2;";
+    let selfref: &[(&str, &str, &str)] = &[
+        ("hash", "insert", "insert(m, a, 1);"),
+        ("hash", "index-set", "m[a] = 1;"),
+        ("hash", "literal", "let k = map {a: 1};"),
+        ("hash", "get", "get(m, a);"),
+        ("hash", "contains", "contains(m, a);"),
+        ("hash", "index-get", "m[1] = 2; m[a];"),
+        ("eq", "distinct-arrays", "a == b;"),
+        ("eq", "distinct-arrays-ne", "a != b;"),
+        ("eq", "distinct-maps", "m1 == m2;"),
+        ("eq", "nested", "[a] == [b];"),
+        ("same", "same-array", "a == a; m1 == m1;"),
+        ("sort", "sort", "sort([a, b]); sort([a, 1, b]);"),
+        ("other", "len-rest-concat", "len(a); rest(a); a + b; first(a); last(a); pop(b); push(b, a);"),
+        ("other", "truthiness", "if a { 1 } else { 2 }; !a; a && b; a || b;"),
+        ("other", "compare", "a < b;"),
+        ("other", "match", "match a { 1 => 1, _ => 2 };"),
+        ("other", "index", "a[1][1][1][0]; m1[1][1][1];"),
+    ];
+    if ctx.shard == 1 % e2e_shards {
+        for (root, name, body) in selfref {
+            ctx.case(hash_str(body), true);
+            ctx.class("selfref");
+            let src = format!("{} {} eprintln(\"done\");", pre, body);
+            // from a file: -c would print the last value, and printing such a container is excluded
+            let r = e2e::run(Opts::new(vec![e2e::script_file("c08-selfref.p2", &src)]));
+            if let Some(c) = r.crashed() {
+                let sig = if *root == "hash" || *root == "eq" { format!("selfref:{}", root) } else { format!("selfref:{}", name) };
+                ctx.report(Violation::new("filters", sig, format!("a container that contains itself, not printed ({}): {}\n{}", name, c, src), json!({"selfref": true, "src": src, "root": root, "name": name})));
+            }
+        }
+    }
     // sleep with a negative duration must return (a runtime error or at once), not sleep for ever
     if ctx.shard == 0 {
         ctx.case(hash_str("sleep-negative"), true);
@@ -422,6 +485,15 @@ pub fn replay(section: &str, case: &Value, ctx: &mut Ctx) {
         return;
     }
     let src = case["src"].as_str().unwrap_or("");
+    if case.get("selfref").is_some() {
+        let r = e2e::run(Opts::new(vec![e2e::script_file("c08-selfref.p2", src)]));
+        if let Some(c) = r.crashed() {
+            let root = case["root"].as_str().unwrap_or("");
+            let sig = if root == "hash" || root == "eq" { format!("selfref:{}", root) } else { format!("selfref:{}", case["name"].as_str().unwrap_or("")) };
+            ctx.report(Violation::new(section, sig, c, case.clone()));
+        }
+        return;
+    }
     if case.get("filter").is_some() {
         let path = e2e::script_file("c08.p2", src);
         let k = case["input"].as_u64().unwrap_or(0);
